@@ -160,6 +160,7 @@ func (w *World) runOp(t *simrt.Task, op *OpSpec, retry bool) *CallRec {
 	t.Quiet(func() {
 		if hs.Open && op.Kind != OpOpen {
 			cr.AttemptsBefore = hs.St.Stats.Attempts
+			cr.FailuresBefore = hs.St.Stats.Failures
 			cr.StaleAtStart = !equalStrings(reftable.SimNames(hs.St), w.Latest().Names)
 			if cr.StaleAtStart {
 				w.probe("op-through-stale-handle")
@@ -251,9 +252,20 @@ func (w *World) invoke(t *simrt.Task, hs *HandleState, op *OpSpec, cr *CallRec) 
 			return err
 		}
 		defer tr.Close()
+		// the handle is current (NewAddition checked it under the lock);
+		// every table of the transaction starts above the previous one.
+		next := hs.St.NextUpdateIndex()
 		for i := range op.Txns {
-			if err := tr.Add(w.writeFn(t, cr, &op.Txns[i], func() uint64 { return reftable.SimAdditionNext(tr) })); err != nil {
+			base := next
+			span := op.Txns[i].Span
+			if span < 1 {
+				span = 1
+			}
+			if err := tr.Add(w.writeFn(t, cr, &op.Txns[i], func() uint64 { return base })); err != nil {
 				return err
+			}
+			if n := len(cr.Written); n > 0 && !cr.Written[n-1].Empty {
+				next = base + uint64(span)
 			}
 		}
 		return tr.Commit()
@@ -489,6 +501,11 @@ func (w *World) afterOp(t *simrt.Task, hs *HandleState, cr *CallRec, before dirS
 	// ---- stale handle (C09), sequential histories only
 	if w.Sequential && cr.StaleAtStart && before.OK && cr.Class != "panic" {
 		w.checkStaleOp(hs, cr, before)
+	}
+	// C17: an auto-compaction that runs strictly reduces the number of tables
+	if w.Sequential && cr.Kind == OpAutoCompact && !cr.StaleAtStart && cr.Class == "ok" && hs.Open &&
+		hs.St.Stats.Attempts > cr.AttemptsBefore && hs.St.Stats.Failures == cr.FailuresBefore && cr.Replaces == 0 {
+		w.violate("C17", "no-progress", "autocompact", "auto-compaction ran (attempted, no failure reported) but tables.list is unchanged")
 	}
 	// C17: "nothing to do" exactly when no two adjacent tables share a size class
 	if w.Sequential && cr.Kind == OpAutoCompact && !cr.StaleAtStart && cr.Class == "ok" && hs.Open && cr.LatestAtStart < len(w.Versions) {
